@@ -55,9 +55,6 @@ pub fn coerce<'x>(a: &'x Value, b: &'x Value, lossy: bool) -> Option<CoerceResul
     match (&a.0, &b.0) {
         // equal mappings are trivial
         (ValueRepr::U64(a), ValueRepr::U64(b)) => Some(CoerceResult::I128(*a as i128, *b as i128)),
-        (ValueRepr::U128(a), ValueRepr::U128(b)) => {
-            Some(CoerceResult::I128(a.0 as i128, b.0 as i128))
-        }
         (ValueRepr::String(a, _), ValueRepr::String(b, _)) => Some(CoerceResult::Str(a, b)),
         (ValueRepr::SmallStr(a), ValueRepr::SmallStr(b)) => {
             Some(CoerceResult::Str(a.as_str(), b.as_str()))
